@@ -38,7 +38,10 @@ RULE = ('(sequences) every sequence of length 0..6 (quick) / 0..7 '
         'nested messages) and loaded from a file with a real isolated gpg: '
         'if loading succeeds the handed text is the S..N span, everything '
         'outside is blank, and the harness\' own `gpg --decrypt` of exactly '
-        'that text yields the same entries. Non-trivial: sequence contains '
+        'that text yields the same entries. (reload) a signed Manifest file is '
+        'loaded, changed in place (same size, mtime kept or not) and loaded '
+        'again in the same process with the same environment; ManifestFile '
+        'instances are re-used across loads. Non-trivial: sequence contains '
         'S or >= 2 distinct classes; (gpg) mutated text differs from the '
         'original. Distinct: sequences by construction, gpg cases by '
         'descriptor hash.')
@@ -78,7 +81,8 @@ def line_for(cls, i):
     if cls == 'D':
         return f'- DATA d{i} {i}'
     if cls == 'A':
-        return '- ' + S
+        # dash-escaped armor line (cleartext that merely looks like armor)
+        return '- ' + (G, S, N)[i % 3]
     if cls == 'X':
         # doubly dash-escaped: the cleartext line is "- DATA ...", junk
         return f'- - DATA x{i} {i}'
@@ -97,6 +101,10 @@ TRAILING_DATA_RE = re.compile(
     r'^B*SH+B[BED]*G[HB]*NB*(?P<tail>[EDJHAX][BEDJHAX]*)$')
 TRUNCATED_RE = re.compile(r'^B*S(H+(B([BED]*(G[HB]*)?)?)?)?$')
 MISPLACED_RE = re.compile(r'^[BE]*[GNO][BE]*$')
+
+
+PRIME_TEXT = (S + '\nHash: SHA256\n\nDATA primed 0\n' + G + '\n\nabc\n' + N
+              + '\n')
 
 
 class Stub:
@@ -153,6 +161,10 @@ def run_sequence(desc):
         for verify in (True, False):
             stub = Stub()
             m = ManifestFile()
+            if verify != final_nl:
+                # an instance that already holds a verified signed Manifest
+                m.load(io.StringIO(PRIME_TEXT), verify_openpgp=True,
+                       openpgp_env=Stub())
             try:
                 m.load(io.StringIO(text), verify_openpgp=verify,
                        openpgp_env=stub)
@@ -167,6 +179,11 @@ def run_sequence(desc):
                     sig='exc:' + buckets.signature(e))
             what = (f'class sequence {seq!r} (final newline {final_nl}, '
                     f'verify_openpgp={verify}), text {text!r}')
+            if outcome != 'accept' and m.openpgp_signed and not stub.handed:
+                return violation(
+                    f'{what}: rejected with {outcome}, yet the (re-used) '
+                    f'ManifestFile still reports itself as signed',
+                    sig='signed-flag-survives-rejected-load')
             if outcome == 'accept':
                 # safety invariants, independent of the reference
                 got = []
@@ -522,6 +539,92 @@ def check_framework_text(text):
 
 
 
+# --- same file loaded twice in one process -----------------------------------
+
+@st.composite
+def reload_case(draw):
+    return {'lines': draw(st.lists(st.sampled_from(ENTRY_LINES), min_size=1,
+                                   max_size=5)),
+            'pos': draw(st.integers(0, 10 ** 6)),
+            'keep_mtime': draw(st.booleans()),
+            'second': draw(st.sampled_from(['tampered', 'tampered',
+                                            'unsigned']))}
+
+
+def strat_reload(tier):
+    return reload_case()
+
+
+def run_reload(desc):
+    from gemato.recursiveloader import ManifestRecursiveLoader
+    fx = fixtures()
+    if fx is None:
+        return skip('no-gpg')
+    text = ''.join(ln + '\n' for ln in desc['lines'])
+    signed = fx['signer'].clearsign(text)
+    b = signed.encode('utf8')
+    start = b.index(b'\n\n') + 2
+    end = b.index(b'-----BEGIN PGP SIGNATURE-----')
+    # flip one alphanumeric character of the body, keeping the size
+    cand = [i for i in range(start, end) if chr(b[i]).isalnum()]
+    i = cand[desc['pos'] % len(cand)]
+    repl = b'1' if b[i:i + 1] != b'1' else b'2'
+    if desc['second'] == 'tampered':
+        second = b[:i] + repl + b[i + 1:]
+    else:
+        body = b[start:end]
+        second = (body + b'\n' * (len(b) - len(body)))[:len(b)]
+    d = harness.fresh_dir('c04r')
+    env = None
+    try:
+        path = os.path.join(d, 'Manifest')
+        with open(path, 'wb') as f:
+            f.write(b)
+        env = RecordingEnv()
+        env.import_key(io.BytesIO(fx['pub']))
+        m1 = ManifestRecursiveLoader(path, verify_openpgp=True,
+                                     openpgp_env=env)
+        if not m1.openpgp_signed:
+            return violation('genuinely signed Manifest not reported signed',
+                             sig='original-not-signed')
+        st0 = os.stat(path)
+        with open(path, 'r+b') as f:
+            f.write(second)
+        if desc['keep_mtime']:
+            os.utime(path, ns=(st0.st_atime_ns, st0.st_mtime_ns))
+        classes = ['second:' + desc['second'],
+                   'mtime-kept' if desc['keep_mtime'] else 'mtime-new']
+        try:
+            m2 = ManifestRecursiveLoader(path, verify_openpgp=True,
+                                         openpgp_env=env)
+        except GematoException:
+            if desc['second'] == 'unsigned':
+                return violation('unsigned rewrite of the same file rejected',
+                                 sig='unsigned-rejected', classes=classes)
+            return ok(nontrivial=True, classes=classes)
+        except Exception as e:
+            return violation(buckets.describe(e),
+                             sig='exc:' + buckets.signature(e),
+                             classes=classes)
+        if desc['second'] == 'tampered':
+            return violation(
+                f'the Manifest file was changed in place (byte {i}, same '
+                f'size, mtime kept: {desc["keep_mtime"]}) after a first '
+                f'verified load in this process; the second load accepts '
+                f'it (openpgp_signed={m2.openpgp_signed})',
+                sig='tampered-accepted-on-reload', classes=classes)
+        if m2.openpgp_signed:
+            return violation(
+                'the file was replaced by unsigned text of the same size; '
+                'the second load still reports it as signed',
+                sig='unsigned-reported-signed-on-reload', classes=classes)
+        return ok(nontrivial=True, classes=classes)
+    finally:
+        if env is not None:
+            env.close()
+        harness.rmtree(d)
+
+
 import fuzzpart  # noqa: E402
 
 PARTS = [
@@ -530,6 +633,9 @@ PARTS = [
     Part('gpg', run_gpg, strategy=strat_gpg,
          examples={'quick': 6000, 'thorough': 80000},
          budget={'quick': 60, 'thorough': 900}),
+    Part('reload', run_reload, strategy=strat_reload,
+         examples={'quick': 600, 'thorough': 6000},
+         budget={'quick': 40, 'thorough': 300}),
     # coverage-guided supplement (atheris/libFuzzer), invariants in-target
     Part('atheris', fuzzpart.run_campaign('c04', check_framework_text),
          enumerate=fuzzpart.enum_campaigns({'quick': 30000,
